@@ -310,7 +310,7 @@ class DetermineBeta(Contract):
         ams = s.f.get("adaptive_min_step")
         if isinstance(ams, Z):
             p.assume(z3.Implies(z3.Not(ams.e), m2 == to_real(ms)), check=False)     # proved for the body: min_step is only rescaled when adaptive_min_step is set
-        p.event("determine_beta", samples, beta, R(b2), tol, ms)
+        p.event("determine_beta", samples, beta, R(b2), tol, ms, adaptive)
         return Tup([R(b2), R(m2)])
 
 
@@ -525,6 +525,11 @@ class RestoreFromCheckpointModel(Contract):
         npop = z3.Int("ck_npop")
         p.assume(z3.And(it >= 0, b >= 0, b <= 1, npop >= 1, z3.Implies(it == 0, b == 0), z3.Implies(it > 0, b > 0)))
         pop = mk_pop("restored", npop, R(b))
+        if p.choose(2, "restored-population-carries-an-evidence") == 1:
+            # whatever the restore route leaves in the evidence fields (a checkpoint taken after the evidence was attached, an estimate computed while
+            # converting): the run's result must not depend on it
+            pop.f["log_evidence"] = R(z3.Real("stale_log_evidence"))
+            pop.f["log_evidence_error"] = R(z3.Real("stale_log_evidence_error"))
         h = {}
         for nm in ALL_SERIES:
             h[nm] = SymList(it, None, z3.Real(fresh(f"sum_{nm}")), nm)
@@ -792,10 +797,15 @@ class Sample(Contract):
         if len(db) == 1:
             out.append(("the new temperature is the one determine_beta returned", bn == to_real(db[0][3])))
             out.append(("C07 the step search runs with the beta_tolerance given to sample()", to_real(db[0][4]) == g["tol"]))
+            if len(db[0]) > 6:
+                out.append(("C07 C06 the step search is ESS-driven exactly when the caller asked for an adaptive schedule (giving n_steps as well does not switch it off)", db[0][6] == g["adaptive"]))
         lr, lv = list_last(h.f["log_norm_ratio"]), list_last(h.f["log_norm_ratio_var"])
         out.append(("C08 C18 appended ratio == LER(pre-resampling population, temperature actually used)", to_real(lr) == LER(d, b0, bn)))
         out.append(("C08 ratio series grows by exactly that one term", list_sum(h.f["log_norm_ratio"]) == p.ghost["SUM_HEAD"] + LER(d, b0, bn)))
         out.append(("C08 C18 appended variance == LERV(pre-resampling population, new temperature)", to_real(lv) == LERV(d, b0, bn)))
+        terms = {x[1]: x[2] for x in ev if x[0] == "evidence.term"}
+        out.append(("C08 C15 the entries appended to the evidence series are the values the population computed (kept in the run's namespace and precision: converted to a "
+                    "Python float they would be summed in the namespace's default precision at the end)", z3.BoolVal(lr is terms.get("ratio") and lv is terms.get("variance"))))
         out.append(("C08 variance series grows by exactly that one term", list_sum(h.f["log_norm_ratio_var"]) == p.ghost["SUMV_HEAD"] + LERV(d, b0, bn)))
         out.append(("C18 recorded ess == ESS(IW(pre-resampling population, new temperature))", to_real(list_last(h.f["ess"])) == ESS_IW(d, b0, bn)))
         out.append(("C18 recorded ess_target == ESS(IW(pre-resampling population, 1))", to_real(list_last(h.f["ess_target"])) == ESS_IW(d, b0, z3.RealVal(1))))
